@@ -17,6 +17,9 @@
     C08/Triangle.lean: `Triangle::{bounding_box, area_doubled, contains, sorted_clockwise,
     scanline_intersection, translate}` (with the lazily consumed `Line::points()` and
     `Scanline::{extend, bresenham_intersection}` below them).
+    C08/RRect.lean: `CornerRadii::confine` (total for all `u32`), `EllipseQuadrant`,
+    `RoundedRectangle::{contains, offset, translate}`, `RoundedRectangleContains`, the `Scanlines`
+    iterator and the `fill_range` search of `StyledScanlines` (any `u32` radii).
   * `old_*` witness theorems: the integer widths of the tree before the `fix:` commits did not
     suffice at display scale (why each widening was needed).
   * C08/Reject.lean: rejection without panic (corollaries of C09, C10, C11 + `checked_mul`,
@@ -24,7 +27,7 @@
 
   Not proved (what Lean cannot carry):
   -- [V] no heap allocation in any constructor, query or draw: carried by correspondence + oracle only (counting global allocator, streams scale.shape/text/image/reject)
-  -- [V] no panic in code that has no checked model (thick polyline / triangle scanline machinery, rounded rectangles, arcs and sectors, f32 trigonometry, glyph rendering, styled scanline drawing): carried by correspondence + oracle only
+  -- [V] no panic in code that has no checked model (thick polyline / triangle scanline machinery, arcs and sectors, f32 trigonometry, glyph rendering, styled scanline drawing): carried by correspondence + oracle only
   -- [V] the `fixed_point` feature build (`I16F16::from_num` range): carried by correspondence + oracle only (thorough tier)
   -- [V] termination of the real iterators within the step bounds of C08/Termination.lean (proved for the models): carried by correspondence + oracle only (iteration budgets of the scale.* streams)
   -- [V] the checked kernels transcribe the operation sequence and integer widths of the Rust source: carried by correspondence only (streams scale.chk.*: `panic` exactly where the checked model says `none`, also far outside the display scale)
